@@ -96,9 +96,13 @@ def decimal(value: _decimal.Decimal) -> bytes:
     if not isinstance(value, _decimal.Decimal):
         raise TypeError('decimal.Decimal required, received {}'.format(
             type(value)))
-    exponent = value.as_tuple().exponent
+    sign, digits, exponent = value.as_tuple()
     if isinstance(exponent, int) and exponent < 0:
-        return struct.pack('>Bi', -exponent, int(value.scaleb(-exponent)))
+        # The coefficient is the unscaled value: taken from the digits it is
+        # exact, where Decimal arithmetic would round to the precision of
+        # (or trap in) the calling thread's decimal context.
+        unscaled = int(''.join(str(digit) for digit in digits) or '0')
+        return struct.pack('>Bi', -exponent, -unscaled if sign else unscaled)
     return struct.pack('>Bi', 0, int(value))
 
 
